@@ -542,4 +542,151 @@ def reopenSchema (d : DbDir) : Except Err SSchema :=
   | none => .error .tsdbError
   | some t => readSchema t
 
+/-! ### encodings (`encoding=` of `write`, `write_database`, `Database`, `open`)
+
+Trusted: a file written under an encoding and read under the same encoding gives the characters
+back (the codecs are not modelled); what IS modelled is where `str.encode` refuses a character,
+because that is an error raised in the middle of staging. -/
+
+inductive Enc where
+  | utf8 | latin1 | ascii
+deriving Repr, DecidableEq
+
+/-- `c.encode(enc)` succeeds.  A Lean `Char` is a Unicode scalar value, so UTF-8 never refuses
+(lone surrogates, which Python strings can hold, are outside the model). -/
+def Enc.ok : Enc → Char → Bool
+  | .utf8, _ => true
+  | .latin1, c => decide (c.toNat < 256)
+  | .ascii, c => decide (c.toNat < 128)
+
+/-- `(join(record, fields) + '\n').encode(encoding)` for one record: the `TSDBError` of `join`
+comes first, then `UnicodeEncodeError` (a `ValueError`). -/
+def encodeRec (enc : Enc) (fields : List Field) (vals : List Val) : Except Err Line :=
+  match encodeLine fields vals with
+  | .ok l => if l.all enc.ok then .ok l else .error .valueError
+  | .error e => .error e
+
+/-- the staging loop of `write` under an encoding -/
+def stageEnc (enc : Enc) (fields : List Field) (recs : List (List Val)) : Except Err (List Line) :=
+  recs.mapM (encodeRec enc fields)
+
+/-! ### `tsdb.write` as a sequence of file-system effects
+
+`write` above gives the end result of a call.  Here the same call is the list of primitive effects
+the code performs, in order: nothing at all when the request is refused; otherwise the temp file is
+created in the directory, one line is staged per record pulled from the caller's iterable (the
+relation files are not touched meanwhile), then — only if every record could be staged — the temp file
+is copied onto the destination (`ab`/`wb`, plain or `GzipFile`), the temp file disappears at the end
+of the `with` block, and the other physical form is unlinked. -/
+
+/-- the relation files together with the staging file of a `write` in progress -/
+structure RelT where
+  rel : Rel
+  tmp : Option (List Line) := none
+deriving Repr, DecidableEq
+
+inductive Eff where
+  | mkTemp                        -- `NamedTemporaryFile(prefix=name, suffix='.tmp', dir=dir)`
+  | tmpWrite (l : Line)           -- `f_tmp.write((join(record, fields) + '\n').encode(encoding))`
+  | copy (gz append : Bool)       -- `copyfileobj(f_tmp, GzipFile(dest, mode) | dest.open(mode))`
+  | rmTemp                        -- end of the `with` block (also when an exception passes through)
+  | unlinkOther (gz : Bool)       -- `other.unlink()` if it is a file; `gz` = the form removed
+deriving Repr, DecidableEq
+
+def Eff.apply (now : Nat) (s : RelT) : Eff → RelT
+  | .mkTemp => { s with tmp := some [] }
+  | .tmpWrite l => { s with tmp := s.tmp.map (· ++ [l]) }
+  | .copy gz app =>
+    let lines := s.tmp.getD []
+    if gz then
+      let old := if app then (s.rel.gz.map (·.lines)).getD [] else []
+      { s with rel := { s.rel with gz := some ⟨old ++ lines, now⟩ } }
+    else
+      let old := if app then (s.rel.tx.map (·.lines)).getD [] else []
+      { s with rel := { s.rel with tx := some ⟨old ++ lines, now⟩ } }
+  | .rmTemp => { s with tmp := none }
+  | .unlinkOther gz =>
+    if gz then { s with rel := { s.rel with gz := none } } else { s with rel := { s.rel with tx := none } }
+
+def runEffs (now : Nat) (s : RelT) (es : List Eff) : RelT := es.foldl (Eff.apply now) s
+
+/-- a request at effect level: the flags and, per record of the caller's iterable, the result of
+`(join(record, fields) + '\n').encode(encoding)`; the iterable is consumed lazily and the loop
+stops at the first record that raises -/
+structure WReqE where
+  append : Bool
+  gzip : Bool
+  recs : List (Except Err Line)
+
+/-- the lines staged before the first failing record, and that record's error -/
+def okPrefix : List (Except Err Line) → List Line × Option Err
+  | [] => ([], none)
+  | .ok l :: rest => ((l :: (okPrefix rest).1), (okPrefix rest).2)
+  | .error e :: _ => ([], some e)
+
+/-- all records staged, or the first error -/
+def collect (recs : List (Except Err Line)) : Except Err (List Line) :=
+  match okPrefix recs with
+  | (ls, none) => .ok ls
+  | (_, some e) => .error e
+
+def WReqE.toWReq (q : WReqE) : WReq := { append := q.append, gzip := q.gzip, staged := collect q.recs }
+
+/-- the effects of one call of `tsdb.write`, and the exception it ends with -/
+def effects (r : Rel) (q : WReqE) : List Eff × Option Err :=
+  if q.append && (q.gzip || r.useGz) then ([], some .notImplemented) else
+  match okPrefix q.recs with
+  | (ls, some e) => (.mkTemp :: ls.map .tmpWrite ++ [.rmTemp], some e)
+  | (ls, none) =>
+    let gz := q.gzip && !ls.isEmpty
+    (.mkTemp :: ls.map .tmpWrite ++ [.copy gz q.append, .rmTemp, .unlinkOther (!gz)], none)
+
+/-- the states of the directory at the moments the caller's iterable is asked for its next record
+(once per staged record, plus the pull that fails or finds the iterable exhausted); none for a
+refused request: its iterable is never touched -/
+def duringStates (now : Nat) (r : Rel) (q : WReqE) : List RelT :=
+  if q.append && (q.gzip || r.useGz) then [] else
+  let ls := (okPrefix q.recs).1
+  (List.range (ls.length + 1)).map (fun k => runEffs now ⟨r, none⟩ (.mkTemp :: (ls.take k).map .tmpWrite))
+
+/-! ### `write_database` under an encoding; `initialize_database` -/
+
+/-- body of the `for name in names` loop with `encoding=enc` handed down to `write` -/
+def writeOneE (enc : Enc) (now : Nat) (q : DbReq) (src dst : Files) (name : Name) : Except Err Files :=
+  match q.target.lookup name with
+  | none => .error .keyError
+  | some fields =>
+    let from_ := if q.inPlace then dst else src
+    let staged : Except Err (List Line) := do
+      let vals ← sourceVals q fields from_ name
+      stageEnc enc fields vals
+    match write now (dst name) { append := false, gzip := q.gzip, staged := staged } with
+    | .ok r' => .ok (dst.set name r')
+    | .error e => .error e
+
+def writeLoopE (enc : Enc) (q : DbReq) (src : Files) : Nat → Files → List Name → Files × Option Err
+  | _, dst, [] => (dst, none)
+  | now, dst, n :: ns =>
+    match writeOneE enc now q src dst n with
+    | .ok dst' => writeLoopE enc q src (now + 1) dst' ns
+    | .error e => (dst, some e)
+
+def writeDbE (enc : Enc) (now : Nat) (q : DbReq) (src dst : Files) : Files × Option Err :=
+  match writeLoopE enc q src now dst q.nameList with
+  | (d, some e) => (d, some e)
+  | (d, none) => (cleanup d ((q.target.map (·.1)).filter (fun n => !(q.nameList.contains n))), none)
+
+def writeDbDirE (enc : Enc) (now : Nat) (q : DbReq) (tss : SSchema) (src : Files) (dst : DbDir) : DbDir × Option Err :=
+  match writeDbE enc now q src dst.files with
+  | (d, e) => ({ relations := some (writeSchema tss), files := d }, e)
+
+/-- `initialize_database(path, schema, files)`: the schema is written, both forms of every relation
+of the schema are removed (`_cleanup_files(path, set(schema))`), and with `files=True` an empty plain
+file is created for each of them; files of other relations stay. -/
+def initFiles (now : Nat) (files : Bool) (names : List Name) (dst : Files) : Files :=
+  fun n => if n ∈ names then (if files then { tx := some ⟨[], now⟩, gz := none } else {}) else dst n
+
+def initDbDir (now : Nat) (files : Bool) (tss : SSchema) (dst : DbDir) : DbDir :=
+  { relations := some (writeSchema tss), files := initFiles now files (tss.map (·.1)) dst.files }
+
 end Verif.C09
